@@ -509,6 +509,9 @@ class SimNinja:
         # staleness diagnostics for edges judged clean
         for e in mf.edges:
             if dirty[e.idx] is None:
+                lw = w.last_write.get((real_bdir, e.outs[0]))
+                if lw is not None and not lw["ok"]:
+                    res.anomalies.append({"k": "stale.failed_output_trusted", "edge": e.outs[0], "rule": e.rule, "written_in_inv": lw["inv"]})
                 sh = self.shadow.get((real_bdir, e.outs[0]))
                 if sh is None:
                     continue
@@ -648,6 +651,10 @@ class SimNinja:
                 rec["fired"] = True
                 os.unlink(marker)
             rec["status"] = list(st)
+            for o in e.outs:
+                op_ = os.path.realpath(os.path.join(bdir, o))
+                if op_ in writes or any(x.startswith(op_ + os.sep) for x in writes):
+                    w.last_write[(real_bdir, o)] = {"ok": st == ("exit", 0), "inv": w.inv_count}
             rec["reads"] = sorted(w.rel(p) for p in reads)
             rec["writes"] = sorted(w.rel(p) for p in writes)
             rec["wdigests"] = {w.rel(p): w.digest(p) for p in sorted(writes)}
